@@ -28,7 +28,7 @@ PROPS = {
     'C02': ['dispatch', 'asyncsched'],
     'C03': ['dispatch', 'validators'],
     'C04': ['bind'],
-    'C11': ['dispatch', 'asyncsched', 'registry', 'client', 'loopback'],
+    'C11': ['dispatch', 'asyncsched', 'registry', 'client', 'loopback', 'httploop'],
     'C12': ['dispatch'],
     'C15': ['registry'],
     'C07': ['loopback', 'asyncsched', 'httploop'],
@@ -332,4 +332,7 @@ def run_check(prop, tier, seed, jobs, t0, build=True):
 
 
 if __name__ == '__main__':
-    sys.exit(main())
+    rc = main()
+    sys.stdout.flush()
+    sys.stderr.flush()
+    os._exit(rc)          # no interpreter teardown: the frameworks' test servers / sessions print noise from __del__ otherwise
